@@ -242,12 +242,12 @@ func cp(src, dst string) {
 }
 
 type crash struct {
-	I      int
-	Text   string
-	Site   string // first frame of the panicking goroutine inside gldap or the harness
-	Gor    string // creation site of the panicking goroutine
-	Kind   string // panic | fatal | watchdog | exit
-	InSUT  bool
+	I       int
+	Text    string
+	Site    string // first frame of the panicking goroutine inside gldap or the harness
+	Gor     string // creation site of the panicking goroutine
+	Kind    string // panic | fatal | watchdog | exit
+	InSUT   bool
 	Handler bool
 }
 
@@ -898,29 +898,29 @@ func check(prop, tier string, seed uint64) int {
 		samples = []interface{}{"no sample recorded: worker 0 did not finish its first runs"}
 	}
 	cov := map[string]interface{}{
-		"evaluations":         total.Runs,
-		"distinct_nontrivial": len(sigs),
-		"rule":                info.rule,
-		"samples":             samples,
-		"exhaustive":          false,
-		"scheduler_steps":     total.Steps,
-		"simulated_time_s":    total.SimTimeMS / 1000,
-		"runs_per_hour":       int(float64(total.Runs) / maxf(simWall, 1) * 3600),
-		"seeds":               fmt.Sprintf("VERIF_SEED=%d, run i uses the i-th derived seed; %d runs", seed, total.Runs),
-		"faults_fired":        total.Faults,
-		"reach_probes":        total.Probes,
-		"inconclusive_step_cap": total.StepCaps,
+		"evaluations":                   total.Runs,
+		"distinct_nontrivial":           len(sigs),
+		"rule":                          info.rule,
+		"samples":                       samples,
+		"exhaustive":                    false,
+		"scheduler_steps":               total.Steps,
+		"simulated_time_s":              total.SimTimeMS / 1000,
+		"runs_per_hour":                 int(float64(total.Runs) / maxf(simWall, 1) * 3600),
+		"seeds":                         fmt.Sprintf("VERIF_SEED=%d, run i uses the i-th derived seed; %d runs", seed, total.Runs),
+		"faults_fired":                  total.Faults,
+		"reach_probes":                  total.Probes,
+		"inconclusive_step_cap":         total.StepCaps,
 		"goroutine_leaks_at_bubble_end": total.Leaks,
-		"known_findings_seen": knownSeen,
+		"known_findings_seen":           knownSeen,
 		"violations_of_other_properties_seen_not_judged_here": others,
-		"worker_deaths_not_judged_here":                        sutCrashes,
-		"worker_watchdog_kills":                                b.watchdog,
-		"harness_errors":                                       harness,
-		"real_code":                                            "github.com/jimlambrt/gldap and testdirectory from /repo's working tree (with spliced yield points), asn1-ber, go-ldap, bufio, crypto/tls, context, sync",
-		"stubs":                                                "TCP (listener, sockets, port table), clock (testing/synctest), crypto/rand (seeded), logger, handlers, OnClose callback",
-		"race_detector":                                        info.race,
-		"race_reports_total":                                   len(b.races),
-		"race_reports_discarded_as_harness_noise":              raceNoise,
+		"worker_deaths_not_judged_here":                       sutCrashes,
+		"worker_watchdog_kills":                               b.watchdog,
+		"harness_errors":                                      harness,
+		"real_code":                                           "github.com/jimlambrt/gldap and testdirectory from /repo's working tree (with spliced yield points), asn1-ber, go-ldap, bufio, crypto/tls, context, sync",
+		"stubs":                                               "TCP (listener, sockets, port table), clock (testing/synctest), crypto/rand (seeded), logger, handlers, OnClose callback",
+		"race_detector":                                       info.race,
+		"race_reports_total":                                  len(b.races),
+		"race_reports_discarded_as_harness_noise":             raceNoise,
 	}
 	if prop == "C02" {
 		blocks, done := total.Probes["C02-single-point-blocks-total"], total.Probes["C02-single-point-block"]
